@@ -51,7 +51,7 @@ def files_hash(paths, extra=''):
 
 
 def engine_files():
-    return sorted(glob.glob(os.path.join(ROOT, 'engine', '*.hpp')) + glob.glob(os.path.join(ROOT, 'engine', 'ref', '*.hpp')))
+    return sorted(glob.glob(os.path.join(ROOT, 'engine', '*.hpp')) + glob.glob(os.path.join(ROOT, 'engine', '*.cpp')) + glob.glob(os.path.join(ROOT, 'engine', 'ref', '*.hpp')))
 
 
 class Stage:
@@ -77,7 +77,7 @@ class Stage:
         os.makedirs(d, exist_ok=True)
         t0 = time.time()
         objs, procs = [], []
-        for s in self.sources:
+        for s in self.sources + (['engine/ubsan_hook.cpp'] if self.kind == 'san' else []):
             o = os.path.join(d, os.path.basename(s) + '.o')
             objs.append(o)
             procs.append((s, subprocess.Popen(self.cmd + self.flags + ['-c', os.path.join(ROOT, s), '-o', o], stdout=subprocess.PIPE, stderr=subprocess.STDOUT, text=True)))
@@ -167,7 +167,7 @@ def run_stage(pid, st, tier, seed, extra_args=()):
     env = dict(os.environ)
     env.update({'VERIF_SEED': str(seed), 'VERIF_TIER': tier, 'VERIF_SCALE': str(st.scale * float(os.environ.get('VERIF_SCALE', '1'))),
                 'PBT_TRACE': trace, 'VERIF_REPO': REPO,
-                'ASAN_OPTIONS': 'detect_leaks=0:abort_on_error=0:allocator_may_return_null=1', 'UBSAN_OPTIONS': 'print_stacktrace=0:silence_unsigned_overflow=1'})
+                'ASAN_OPTIONS': 'detect_leaks=0:abort_on_error=0:allocator_may_return_null=1', 'UBSAN_OPTIONS': 'print_stacktrace=0:suppress_equal_pcs=0'})
     env.update(st.env)
     args = [st.binary, '--out', out, '--tier', tier] + list(extra_args)
     if st.only:
@@ -233,7 +233,7 @@ def replay_file(pid, spec, path, times=1, tier='quick'):
     allfail, key, outtxt = True, None, ''
     want = rp.get('key')
     env = dict(os.environ)
-    env.update({'ASAN_OPTIONS': 'detect_leaks=0', 'UBSAN_OPTIONS': 'print_stacktrace=1', 'VERIF_TIER': tier, 'VERIF_REPO': REPO})
+    env.update({'ASAN_OPTIONS': 'detect_leaks=0', 'UBSAN_OPTIONS': 'print_stacktrace=0:suppress_equal_pcs=0', 'PBT_UBSAN_VERBOSE': '1', 'VERIF_TIER': tier, 'VERIF_REPO': REPO})
     env.update(st.env)
     for _ in range(times):
         p = subprocess.run([st.binary, '--replay', path, '--tier', tier], env=env, stdout=subprocess.PIPE, stderr=subprocess.STDOUT, text=True, errors='replace')
@@ -400,6 +400,8 @@ def run_check(pid, spec, tier, seed, only_stage=None):
         results.append(res)
         for t in res['targets']:
             for fl in t['failures']:
+                if spec.get('only_key_prefixes') and not any(fl['key'].startswith(pf) for pf in spec['only_key_prefixes']):
+                    continue  # e.g. C20 replays other properties' harnesses under sanitizers: their semantic oracles are judged by their own checks
                 fullkey = t['name'] + ':' + fl['key']
                 kf = match_known(known, pid, fullkey)
                 if kf:
